@@ -73,6 +73,30 @@ unsafe extern "C" fn foreign_box_drop(p: *mut c_void) {
     }
 }
 
+/// The foreign module's slice box: an owned buffer (owned even when the slice it publishes is
+/// empty) released by this function, which gets a pointer to the published {data, len} pair.
+unsafe extern "C" fn foreign_slice_drop(s: *mut cview::SliceView<Pay>) {
+    FOREIGN_DROPS.fetch_add(1, Ordering::SeqCst);
+    let data = (*s).data as *mut Pay;
+    let len = (*s).len;
+    let mut live = FOREIGN_LIVE.lock().unwrap();
+    match live.iter().position(|x| *x == data as usize) {
+        Some(i) => {
+            live.remove(i);
+            drop(live);
+            for k in 0..len {
+                std::ptr::drop_in_place(data.add(k));
+            }
+            alloc::unregister_foreign(data as *const u8);
+            std::alloc::GlobalAlloc::dealloc(&std::alloc::System, data as *mut u8, std::alloc::Layout::array::<Pay>(FOREIGN_SLICE_CAP).unwrap());
+        }
+        None => {
+            FOREIGN_BAD.fetch_add(1, Ordering::SeqCst);
+        }
+    }
+}
+const FOREIGN_SLICE_CAP: usize = 4;
+
 enum B {
     /// payload without drop glue: only the allocator can tell whether the box was released
     Plain(CBox<'static, [u64; 3]>),
@@ -113,7 +137,7 @@ fn apply(st: &mut State, step: &Step, counts: &mut Vec<&'static str>) -> Result<
             if st.slots[s].is_some() {
                 return Ok("BNew noop".into());
             }
-            let kind = step.arg(1).rem_euclid(9);
+            let kind = step.arg(1).rem_euclid(10);
             let slot = match kind {
                 0 => {
                     let (p, id) = fresh(st);
@@ -139,6 +163,27 @@ fn apply(st: &mut State, step: &Step, counts: &mut Vec<&'static str>) -> Result<
                         cview::view::<BoxView, CBox<'static, Pay>>(BoxView { instance: mem as *mut c_void, drop_fn: Some(foreign_box_drop) })
                     };
                     Slot { b: B::Box(b), ids: vec![id], foreign: true }
+                }
+                9 => {
+                    // a slice box made by the foreign module: 0..=2 elements in a buffer of its own
+                    let len = step.arg(2).rem_euclid(3) as usize;
+                    counts.push("fault.foreign_module");
+                    if len == 0 {
+                        counts.push("probe.empty_foreign_slice_box");
+                    }
+                    let mut ids = Vec::new();
+                    let b = unsafe {
+                        let mem = std::alloc::GlobalAlloc::alloc(&std::alloc::System, std::alloc::Layout::array::<Pay>(FOREIGN_SLICE_CAP).unwrap()) as *mut Pay;
+                        for k in 0..len {
+                            let (p, id) = fresh(st);
+                            std::ptr::write(mem.add(k), p);
+                            ids.push(id);
+                        }
+                        alloc::register_foreign(mem as *const u8, std::mem::size_of::<Pay>() * FOREIGN_SLICE_CAP);
+                        FOREIGN_LIVE.lock().unwrap().push(mem as usize);
+                        cview::view::<SliceBoxView<Pay>, CSliceBox<'static, Pay>>(SliceBoxView { instance: SliceView { data: mem, len }, drop_fn: Some(foreign_slice_drop) })
+                    };
+                    Slot { b: B::Slice(b), ids, foreign: true }
                 }
                 7 => {
                     let v = [step.arg(2) as u64, 0x1122_3344, !0u64];
@@ -475,7 +520,7 @@ impl Engine for CBoxEngine {
             let s0 = rng.below(pool as u64) as i64;
             let party = if c_party && rng.chance(1, 3) { 1 } else { 0 };
             match op {
-                "BNew" => p.push(t, op, &[s0, rng.range(0, 8), rng.range(0, 4)]),
+                "BNew" => p.push(t, op, &[s0, rng.range(0, 9), rng.range(0, 4)]),
                 "BRead" | "BDrop" => p.push(t, op, &[s0, party]),
                 "BWrite" => p.push(t, op, &[s0, rng.range(0, 4)]),
                 "Tags" => p.push(t, op, &[*rng.pick(&[0, 1, -1, i32::MAX as i64, i32::MIN as i64, 77]), rng.range(0, 6)]),
